@@ -3,6 +3,7 @@ import RbV.Model.OccTable
 import RbV.Model.InvBWT
 import RbV.Thm.GenSrcBwt
 import RbV.Thm.GenSrcPrescan
+import RbV.Thm.GenSrcOcc
 /-!
 # C04 — BWT, less and Occ are exact (mirror models of `bwt.rs` refine the specification)
 
@@ -171,5 +172,90 @@ theorem less_source_prescan_exact (bwt : List Nat) (m c : Nat) (h : c < m) :
   ⟨_, GenSrcPrescan.prescan_eq_model _ 0, less_eq bwt m c h⟩
 
 example : Gen.SrcPrescan.prescan (· + ·) [1, 0, 2, 1] 0 = Rs.Res.ok [0, 1, 1, 3] := by decide
+
+/-! ### `Occ::new`, `Occ::get` translated from the source text (`RbV/Gen/SrcOcc.lean`, proofs `RbV/Thm/GenSrcOcc.lean`)
+
+The alphabet is an opaque value `alphabet : Alph`; what `Occ::new` asks of it are the three abstract functions
+`maxSymbol` (`alphabet.max_symbol()`), `symbols` (`alphabet.symbols.iter().collect::<Vec<usize>>()`), `isWordDollar`
+(`alphabet.is_word(b"$")`).  `bytecount::count` (external crate) is read as `List.count`. -/
+
+section occ_source
+variable {Alph : Type} (maxSymbol : Alph → Option Nat) (symbols : Alph → List Nat) (isWordDollar : Alph → Bool)
+
+/-- **`Occ::new`, as written, is the mirror model `occTable`** (real state: vector of counters, one column per symbol
+value below `max_symbol + 1`, the tracked columns pushed at rows `i % k == 0`), returned with `k`.  Hypotheses = what
+keeps the Rust code from panicking: non-empty alphabet, `k ≥ 1`, BWT and tracked symbols ≤ the maximal symbol, `n < 2^64`. -/
+theorem occ_new_source_eq_model (bwt : List Nat) (k : Nat) (alphabet : Alph) (ms : Nat)
+    (hms : maxSymbol alphabet = some ms) (hk : 0 < k) (hn : bwt.length < 2 ^ 64) (hms' : ms + 1 < 2 ^ 64)
+    (hsym : ∀ x ∈ bwt, x ≤ ms) (hal : ∀ a ∈ symbols alphabet, a ≤ ms) :
+    Gen.SrcOcc.new maxSymbol symbols isWordDollar bwt k alphabet
+      = Rs.Res.ok (occTable bwt k (GenSrcOcc.alphaOf (symbols alphabet) (isWordDollar alphabet) (ms + 1)) (ms + 1), k) :=
+  GenSrcOcc.new_eq_model maxSymbol symbols isWordDollar bwt k alphabet ms hms hk hn hms' hsym hal
+
+/-- generated code = specification: the column of every tracked symbol in the table returned by the translated
+`Occ::new` is the checkpoint table "entry i = occRef bwt (i·k) a for every i with i·k < n" -/
+theorem occ_new_source_exact (bwt : List Nat) (k : Nat) (alphabet : Alph) (ms : Nat)
+    (hms : maxSymbol alphabet = some ms) (hk : 0 < k) (hn : bwt.length < 2 ^ 64) (hms' : ms + 1 < 2 ^ 64)
+    (hsym : ∀ x ∈ bwt, x ≤ ms) (hal : ∀ a ∈ symbols alphabet, a ≤ ms)
+    (hnd : (symbols alphabet).Nodup) (hw : isWordDollar alphabet = false → 36 ∉ symbols alphabet)
+    (a : Nat) (ha : a ∈ GenSrcOcc.alphaOf (symbols alphabet) (isWordDollar alphabet) (ms + 1)) (ham : a ≤ ms) :
+    ∃ tbl, Gen.SrcOcc.new maxSymbol symbols isWordDollar bwt k alphabet = Rs.Res.ok (tbl, k) ∧
+      tbl[a]? = some ((List.range ((bwt.length + k - 1) / k)).map (fun i => occRef bwt (i * k) a)) := by
+  refine ⟨_, GenSrcOcc.new_eq_model maxSymbol symbols isWordDollar bwt k alphabet ms hms hk hn hms' hsym hal, ?_⟩
+  rw [occTable_col bwt k _ (ms + 1) a ha (GenSrcOcc.alphaOf_nodup _ _ _ hnd hw) (Nat.lt_succ_of_le ham),
+    occNewLoop_eq bwt k a hk]
+  rfl
+
+-- alphabet {0,1,2,3} without `$`: the table of the model example above; alphabet "$ACGT" of the repo's test, k = 3
+example : Gen.SrcOcc.new (fun _ => some 3) (fun _ => [0, 1, 2, 3]) (fun _ => false) [1, 3, 3, 1, 2, 0] 3 ()
+    = Rs.Res.ok ([[0, 0], [1, 2], [0, 0], [0, 2]], 3) := by decide
+
+/-- **`Occ::get`, as written, on a table whose column `a` is the checkpoint table, is the specification**: for every
+`k ≥ 1` (both sides of the look-ahead switch) and every row `r < n` the translated function — with `bytecount::count`
+read as `List.count` — passes every checked operation (`occ[a]`, the checkpoint reads, `r / k`, the two inclusive
+slices, `hi_occ - count`, `count + lo_occ`) and returns the number of `a` in `bwt[0..=r]`.  The proof walks all paths
+of the generated definition with the facts the true table provides and does not depend on the branch structure, so a
+property-preserving rewrite of `Occ::get` (other threshold, other rule for the checkpoint to count from) is re-proved. -/
+theorem occ_get_source_exact_on_table (occ : List (List Nat)) (k : Nat) (bwt : List Nat) (r a : Nat)
+    (hcp : occ[a]? = some (occNew bwt k a)) (hk : 0 < k) (hk32 : k < 2 ^ 32) (hr : r < bwt.length)
+    (hn : bwt.length < 2 ^ 64) :
+    Gen.SrcOcc.get (fun s c => s.count c) occ k bwt r a = Rs.Res.ok (occRef bwt r a) :=
+  GenSrcOcc.get_exact_of_table occ k bwt r a hcp hk hk32 hr hn
+
+/-- **`Occ::get`, as written, agrees with the mirror model `occGet`** (the function the driver runs and `occ_get_exact`
+is about) on the checkpoint column built by the loop of `Occ::new`.  (The stronger, shape-dependent statement "equal to
+`occGet` on *every* column on which the checked operations cannot panic" is `GenSrcOccModel.get_eq_model`,
+`RbV/Thm/GenSrcOccModel.lean`, built by `tools/gen_tables.py` as a soft obligation: it is false for a rewrite that
+changes which checkpoint is used although the property still holds.) -/
+theorem occ_get_source_eq_model (occ : List (List Nat)) (k : Nat) (bwt : List Nat) (r a : Nat)
+    (hcp : occ[a]? = some (occNewLoop bwt k a)) (hk : 0 < k) (hk32 : k < 2 ^ 32) (hr : r < bwt.length)
+    (hn : bwt.length < 2 ^ 64) :
+    Gen.SrcOcc.get (fun s c => s.count c) occ k bwt r a = Rs.Res.ok (occGet (occNewLoop bwt k a) bwt k r a) := by
+  rw [occ_get_exact bwt k r a hk hr]
+  rw [occNewLoop_eq bwt k a hk] at hcp
+  exact GenSrcOcc.get_exact_of_table occ k bwt r a hcp hk hk32 hr hn
+
+/-- **generated code = specification, end to end**: for every `k ≥ 1`, every row `r < n` and every tracked symbol, the
+*translated* `Occ::get` on the table returned by the *translated* `Occ::new` returns `occRef bwt r a` = the number of
+`a` in `bwt[0..=r]` (no panic, no hypothesis on the table left) -/
+theorem occ_get_source_exact (bwt : List Nat) (k : Nat) (alphabet : Alph) (ms : Nat)
+    (hms : maxSymbol alphabet = some ms) (hk : 0 < k) (hk32 : k < 2 ^ 32) (hn : bwt.length < 2 ^ 64) (hms' : ms + 1 < 2 ^ 64)
+    (hsym : ∀ x ∈ bwt, x ≤ ms) (hal : ∀ a ∈ symbols alphabet, a ≤ ms)
+    (hnd : (symbols alphabet).Nodup) (hw : isWordDollar alphabet = false → 36 ∉ symbols alphabet)
+    (a r : Nat) (ha : a ∈ GenSrcOcc.alphaOf (symbols alphabet) (isWordDollar alphabet) (ms + 1)) (hr : r < bwt.length) :
+    ∃ tbl k', Gen.SrcOcc.new maxSymbol symbols isWordDollar bwt k alphabet = Rs.Res.ok (tbl, k') ∧
+      Gen.SrcOcc.get (fun s c => s.count c) tbl k' bwt r a = Rs.Res.ok (occRef bwt r a) :=
+  GenSrcOcc.get_new_exact maxSymbol symbols isWordDollar bwt k alphabet ms hms hk hk32 hn hms' hsym hal hnd hw a r ha hr
+
+end occ_source
+
+-- `Occ::get` on the table of `Occ::new`, k = 3, symbol 3: the column 0,1,2,2,2,2 of the model example above
+example : (List.range 6).map (fun r => Gen.SrcOcc.get (fun s c => s.count c) [[0, 0], [1, 2], [0, 0], [0, 2]] 3
+    [1, 3, 3, 1, 2, 0] r 3) = [0, 1, 2, 2, 2, 2].map Rs.Res.ok := by decide
+-- a symbol without a column / a row outside the BWT is refused by the Rust code: the translation panics
+example : Gen.SrcOcc.get (fun s c => s.count c) [[0, 0], [1, 2], [0, 0], [0, 2]] 3 [1, 3, 3, 1, 2, 0] 2 4 = Rs.Res.panic := by
+  decide
+example : Gen.SrcOcc.get (fun s c => s.count c) [[0, 0], [1, 2], [0, 0], [0, 2]] 3 [1, 3, 3, 1, 2, 0] 6 3 = Rs.Res.panic := by
+  decide
 
 end RbV.Thm.C04
